@@ -124,6 +124,11 @@ func runC01(c *ev.Ctx) {
 	if c.Lite() {
 		large = nil
 	}
+	if !c.Lite() {
+		// the witness of the listed known finding (KNOWN_FINDINGS.txt), so that every run observes it
+		runSeqWorks(c, []seqWork{{Seq: gen.Seq{Fam: "slight", N: 40000000, Seed: 5}, Specs: []Spec{{"block", 3}}}})
+		c.Count("very_many_blocks_cases", 1)
+	}
 	for i, l := range large {
 		fam := "uniform"
 		if i >= 4 && i%2 == 0 {
@@ -135,17 +140,19 @@ func runC01(c *ev.Ctx) {
 
 	// automatic block-length table at its switch points, including 10^8
 	edges := []int{999, 1000, 9999, 10000, 999999, 1000000}
-	big := []int{99999999, 100000000}
+	big := []int{99999999, 100000000, 100000001}
 	for _, n := range edges {
-		runSeqWorks(c, []seqWork{{Seq: gen.Seq{Fam: "slight", N: n, Seed: gen.Mix(seed, 9, uint64(n))}, Specs: []Spec{{T: "blockAuto"}}}})
-		c.Count("auto_block_edge_cases", 1)
+		runSeqWorks(c, []seqWork{{Seq: gen.Seq{Fam: "slight", N: n, Seed: gen.Mix(seed, 9, uint64(n))}, Specs: []Spec{{T: "blockAuto"}}},
+			{Seq: gen.Seq{Fam: "uniform", N: n, Seed: gen.Mix(seed, 99, uint64(n))}, Specs: []Spec{{T: "blockAuto"}}}})
+		c.Count("auto_block_edge_cases", 2)
 	}
 	if c.Lite() {
 		big = nil
 	}
 	for _, n := range big {
 		// one at a time: 100 MB of bools + 100 MB reference bits each
-		runSeqWorks(c, []seqWork{{Seq: gen.Seq{Fam: "slight", N: n, Seed: gen.Mix(seed, 9, uint64(n))}, Specs: []Spec{{T: "blockAuto"}}}})
+		// (unbiased content: with any bias P is 0 for either block length at this size and the table entry would not show)
+		runSeqWorks(c, []seqWork{{Seq: gen.Seq{Fam: "uniform", N: n, Seed: gen.Mix(seed, 9, uint64(n))}, Specs: []Spec{{T: "blockAuto"}}}})
 		c.Count("auto_block_edge_cases", 1)
 	}
 	c.Note("lengths", fmt.Sprintf("%v (+thorough %v) + auto-block edges %v %v", lens, thoroughLens, edges, big))
